@@ -33,11 +33,17 @@ function* IG(id, items){ try { for (var i=0;i<items.length;i++){ var r = yield i
 function MK(id, isGen, ret, thr, items){
   if (isGen) return IG(id, items);
   var pos = 0;
-  var o = { next: function(v){ LS("I"+id+"n"+SV(v)); if (pos < items.length) return {value: items[pos++], done:false};
+  var fired = false;
+  var o = { next: function(v){ LS("I"+id+"n"+SV(v));
+                               if (id >= 10 && pos === 1 && items.length > 1 && !fired) { fired = true; var k = Math.floor(id/10)-1; if (k > 2) k = 2;
+                                 var rx; try { R(k); rx = "ok"; } catch (e) { rx = SV(e); } LS("I"+id+"x"+rx); }
+                               if (pos < items.length) return {value: items[pos++], done:false};
                                return {value:"R"+id, done:true}; } };
   o[Symbol.iterator] = function(){ return this; };
   if (ret===1) o["return"] = function(v){ LS("I"+id+"r"+SV(v)); return {value:v, done:true}; };
   if (ret===2) o["return"] = function(v){ LS("I"+id+"r"+SV(v)); throw "X"+id; };
+  if (ret===3) o["return"] = function(v){ LS("I"+id+"r"+SV(v)); return 5; };
+  if (thr===4) o["throw"] = function(e){ LS("I"+id+"t"+SV(e)); return 5; };
   if (thr===1) o["throw"] = function(e){ LS("I"+id+"t"+SV(e)); throw e; };
   if (thr===2) o["throw"] = function(e){ LS("I"+id+"t"+SV(e)); return {value:"T"+id, done:true}; };
   if (thr===3) o["throw"] = function(e){ LS("I"+id+"t"+SV(e)); return {value:"C"+id, done:false}; };
